@@ -60,13 +60,11 @@ const (
 	_refStartTag = 0x51
 )
 
-// used to ref object,list,map
-type _refElem struct {
-	// record the kind of target, objects are the same only if the address and kind are the same
+// key of an object, list or map that may be referred to again:
+// objects are the same only if the address and kind are the same
+type _refKey struct {
+	addr unsafe.Pointer
 	kind reflect.Kind
-
-	// ref index
-	index int
 }
 
 func refTag(tag byte) bool {
@@ -106,18 +104,16 @@ func (e *Encoder) checkEncodeRefMap(v reflect.Value) (int, bool) {
 		}
 	}
 
-	if elem, ok := e.refMap[addr]; ok {
-		// the array addr is equal to the first elem, which must ignore
-		if elem.kind == kind {
-			// fmt.Printf("-----> find ref: %d, %p, %v, %v\n", elem.index, addr, kind, v)
-			return elem.index, ok
-		}
-		return 0, false
+	// a value of another kind at the same address (a slice and its first element, values of
+	// zero size) is another value: it takes a number of its own, as it does for the decoder
+	key := _refKey{addr, kind}
+	if index, ok := e.refMap[key]; ok {
+		// fmt.Printf("-----> find ref: %d, %p, %v, %v\n", index, addr, kind, v)
+		return index, ok
 	}
 
-	n := len(e.refMap)
-	e.refMap[addr] = _refElem{kind, n}
-	// fmt.Printf("---> add ref: %d, %p, %v, %v\n", n, addr, kind, v)
+	e.refMap[key] = len(e.refMap)
+	// fmt.Printf("---> add ref: %d, %p, %v, %v\n", len(e.refMap)-1, addr, kind, v)
 	return 0, false
 }
 
